@@ -3,6 +3,7 @@
 package main
 
 import (
+	"sync"
 	"bytes"
 	"fmt"
 	"io"
@@ -117,6 +118,89 @@ func init() {
 			}
 		}
 		return "ok"
+	})
+	// wire pair <src1> <src2> <dst1> <dst2> <backend> <count> <tag>: two senders, each towards its own listener entry of the
+	// service, at the same time; every request names its Call-ID again in every line of its body (bodies of very
+	// different lengths). What the backend receives is checked datagram by datagram: the body (and Content-Length) of a
+	// relayed request are those of the request with that Call-ID - never bytes of a request relayed by the other listener.
+	vReg("wire pair", func(a []string) string {
+		s1, e1 := wireUDP(unhx(a[0]))
+		s2, e2 := wireUDP(unhx(a[1]))
+		be, e3 := wireUDP(unhx(a[4]))
+		if e1 != nil || e2 != nil || e3 != nil {
+			return "bind-error"
+		}
+		d1, _ := net.ResolveUDPAddr("udp", unhx(a[2]))
+		d2, _ := net.ResolveUDPAddr("udp", unhx(a[3]))
+		n, _ := strconv.Atoi(a[5])
+		tag := a[6]
+		bodyOf := func(cid string, k int) string { return strings.Repeat(cid+"\r\n", 1+(k*7)%40) }
+		var wg sync.WaitGroup
+		send := func(c *net.UDPConn, d *net.UDPAddr, side int, src string) {
+			defer wg.Done()
+			for k := 0; k < n; k++ {
+				cid := fmt.Sprintf("pair-%s-%d-%d", tag, side, k)
+				body := bodyOf(cid, k+side*3)
+				m := fmt.Sprintf("MESSAGE sip:svc.test SIP/2.0\r\nVia: SIP/2.0/UDP %s;branch=z9hG4bKp%s%d%d\r\nFrom: <sip:p%d@ua.test>;tag=1\r\nTo: <sip:svc.test>\r\nCall-ID: %s\r\nCSeq: 1 MESSAGE\r\nX-Side: %d\r\nContent-Length: %d\r\n\r\n%s", src, tag, side, k, side, cid, side, len(body), body)
+				c.WriteToUDP([]byte(m), d)
+				if k%16 == 15 {
+					time.Sleep(200 * time.Microsecond)
+				}
+			}
+		}
+		wg.Add(2)
+		go send(s1, d1, 1, unhx(a[0]))
+		go send(s2, d2, 2, unhx(a[1]))
+		received, corrupt := 0, 0
+		example := ""
+		buf := make([]byte, 70000)
+		idle := 0
+		for idle < 2 {
+			be.SetReadDeadline(time.Now().Add(300 * time.Millisecond))
+			k, _, err := be.ReadFromUDP(buf)
+			if err != nil {
+				idle++
+				continue
+			}
+			idle = 0
+			d := string(buf[:k])
+			if !strings.Contains(d, "Call-ID: pair-"+tag+"-") {
+				continue
+			}
+			received++
+			h := strings.Index(d, "\r\n\r\n")
+			cid := ""
+			cl := -1
+			if h >= 0 {
+				for _, l := range strings.Split(d[:h], "\r\n") {
+					if strings.HasPrefix(l, "Call-ID: ") {
+						cid = l[9:]
+					}
+					if strings.HasPrefix(l, "Content-Length: ") {
+						cl, _ = strconv.Atoi(l[16:])
+					}
+				}
+			}
+			okd := h >= 0 && cid != ""
+			if okd {
+				body := d[h+4:]
+				okd = cl == len(body) && len(body)%(len(cid)+2) == 0 && body == strings.Repeat(cid+"\r\n", len(body)/(len(cid)+2))
+			}
+			if !okd {
+				corrupt++
+				if example == "" {
+					example = cid
+				}
+			}
+		}
+		wg.Wait()
+		if corrupt > 0 {
+			return fmt.Sprintf("corrupt=%d-of-%d e.g.%s", corrupt, received, example)
+		}
+		if received < n/4 {
+			return fmt.Sprintf("too-few-relayed-%d", received)
+		}
+		return "ok intact"
 	})
 	// wire recv <addr> <timeout ms> [msg=<hex reference>]  -> n=1 U <addr> <hex>   (same shape as pipe raw)
 	vReg("wire recv", func(a []string) string {
